@@ -621,13 +621,17 @@ def check_proto(ctx, repo, rule):
 
     def polarity(node):
         """+1 when node is only reached under P, -1 under not P, 0 otherwise."""
+        def conj(e):
+            e = canon_test(e)
+            return {canon_key(x) for x in (e.values if isinstance(e, ast.BoolOp) and isinstance(e.op, ast.And) else [e])}
         for t, pol in path_conditions(node):
-            e = canon_test(expand(t, ga, 4))
-            cj = {canon_key(x) for x in (e.values if isinstance(e, ast.BoolOp) and isinstance(e.op, ast.And) else [e])}
-            if cj == want:
-                return 1 if pol else -1
-            if pol and want <= cj:
+            te = expand(t, ga, 4)
+            holds = conj(te if pol else ast.UnaryOp(op=ast.Not(), operand=clone(te)))          # what is known here
+            fails = conj(ast.UnaryOp(op=ast.Not(), operand=clone(te)) if pol else te)          # what is known NOT to hold here
+            if want <= holds:
                 return 1
+            if fails == want:
+                return -1
         return 0
     solves = [c for c in walk_local(g.node) if isinstance(c, ast.Call) and call_name(c) == 'cholesky_solve']
     ok = bool(solves) and all(polarity(c) == 1 for c in solves)
